@@ -214,4 +214,11 @@ def search (args : List String) : IO UInt32 := do
       return 0
   | _ => IO.println "usage: spsc-search cap batch M wStore wLoad rStore rLoad drain depth"; return 2
 
+/-- `driver spsc trace | anypub | search …` -/
+def main : List String → IO UInt32
+  | ["trace"] => runTrace
+  | ["anypub"] => runTrace true
+  | "search" :: rest => search rest
+  | _ => do IO.println "usage: driver spsc trace|anypub|search …"; return 2
+
 end Drv.Spsc
